@@ -4,7 +4,7 @@
    finishes") is refuted in the stated configuration class by the known findings (hang with an ordered
    standalone buffer, LIFO deadlock with early transport disabled) and otherwise decided by exploration. *)
 From Coq Require Import List ZArith Bool.
-From JSL Require Import Base.Res Base.ListX SM.Types SM.Util SM.Handler SM.Step SM.Inv SMP.Offers.
+From JSL Require Import Base.Res Base.ListX SM.Types SM.Util SM.Handler SM.Step SM.Inv SMP.Offers SM.ExampleDeadlock SM.ExampleHang SM.Middleware SMP.Reflect Props.C05.
 Import ListNotations.
 
 Theorem C11_ready_only :
@@ -39,3 +39,39 @@ Theorem C11_offers_applicable :
   forall i x offers tr, no_transport_ops_b x = true ->
     get_possible_transitions i x = Ok offers -> In tr offers -> is_transition_valid x tr = Ok true.
 Proof. exact offers_are_valid. Qed.
+
+(* C11_refuted: "inside the configuration class the offer list never becomes empty before the end, and always
+   accepting finishes the instance" is FALSE of the faithful model. SM/ExampleDeadlock.v is a compiled document
+   of the class (3 jobs, 2 machines, 1 AGV, LIFO post-buffers that can hold all jobs, early transport disabled):
+   after reset and four accepted offers the state has no offers and is not terminal, and every further action
+   raises - for every fuel. The implementation raises InvalidValue on the same five actions (known finding
+   F-C11-deadlock-lifo-no-early; replayed by the C11 check on every run). *)
+Definition dl_run (fuel : nat) (acts : list Z) : option (result * mw) :=
+  match mw_reset dl_sigma dl_inst fuel dl_init 5%Z false (mkMw 5%Z 0 0 false) with
+  | MOk r m _ =>
+      fold_left (fun acc a => match acc with
+                              | Some (r, m) => match mw_step dl_sigma dl_inst fuel r m a with
+                                               | MOk r' m' _ => Some (r', m') | _ => None end
+                              | None => None end) acts (Some (r, m))
+  | _ => None
+  end.
+
+Theorem C11_refuted :
+  i_early dl_inst = false /\
+  exists r m, dl_run 200 [1; 1; 1; 1]%Z = Some (r, m)
+    /\ wfs_b dl_inst (r_x r) = true /\ clock_b (r_x r) = true
+    /\ r_offers r = [] /\ all_in_output dl_inst (r_x r) = false
+    /\ forall fuel a, mw_step dl_sigma dl_inst fuel r m a = MRaise EInvalidValue.
+Proof.
+  split; [reflexivity|]. do 2 eexists. split; [vm_compute; reflexivity|].
+  split; [vm_compute; reflexivity|]. split; [vm_compute; reflexivity|].
+  split; [reflexivity|]. split; [vm_compute; reflexivity|]. intros fuel a. reflexivity.
+Qed.
+Print Assumptions C11_refuted.
+
+(* the non-terminating step of C05_refuted lies in the class too (FIFO standalone input buffer that holds all
+   jobs, unordered post-buffers): always-accept does not finish there either *)
+Theorem C11_refuted_hang :
+  forall fuel, step hang_sigma hang_inst fuel hang_pre hang_trs TMJumpToEvent = SOutOfFuel.
+Proof. exact C05_refuted_step. Qed.
+Print Assumptions C11_refuted_hang.
